@@ -5,6 +5,10 @@ The *real* functions of fakesnow.arrow are called with these objects in place of
 element as a z3 term; a kernel the shim does not know raises Unsupported (obligation inconclusive).  Safe casts
 become side conditions (real pyarrow raises ArrowInvalid when they fail), collected in ``Ctx.side``.
 
+Validity: every element carries a z3 Bool ``valid``; element-wise kernels and casts propagate NULL (valid = conjunction of the
+inputs' validity), ``pc.is_null`` / ``Array.is_null`` read it, ``StructArray.from_arrays(..., mask=m)`` makes the struct NULL where m is
+true and VALID everywhere when no mask is given (children's NULLs do not make a struct NULL - as in real pyarrow).
+
 Semantics encoded (pyarrow 'unchecked' arithmetic as used by the code: add/subtract/multiply wrap, divide truncates):
   floor/ceil/round_temporal(unit)      integer arithmetic on the epoch count
   subsecond(ts)                        binary64: fl((t mod unit_per_s) / unit_per_s)
@@ -115,8 +119,15 @@ def time64(unit: str):
 class Arr:
     """One symbolic element of a pyarrow array."""
 
-    def __init__(self, term, type_: TType, n: int = 1) -> None:
+    def __init__(self, term, type_: TType, n: int = 1, valid=None) -> None:
         self.term, self.type, self.n = term, type_, n
+        self.valid = z3.BoolVal(True) if valid is None else valid
+
+    def is_null(self, **kw):
+        return Arr(z3.Not(self.valid), TType("bool"), self.n)
+
+    def is_valid(self):
+        return Arr(self.valid, TType("bool"), self.n)
 
     def __len__(self) -> int:
         return self.n
@@ -150,19 +161,19 @@ def cast(a: Arr, target: TType, safe: bool = True) -> Arr:
         lo, hi = -(2 ** (target.bits - 1)), 2 ** (target.bits - 1) - 1
         if src.kind in ("int", "timestamp", "time"):
             if safe and (src.bits or 64) > target.bits:
-                Ctx.side.append((f"safe cast {src.kind}{src.bits}->int{target.bits} in range", z3.And(a.term >= lo, a.term <= hi)))
-            return Arr(a.term if safe else wrap(a.term, target.bits), target, a.n)
+                Ctx.side.append((f"safe cast {src.kind}{src.bits}->int{target.bits} in range", z3.Implies(a.valid, z3.And(a.term >= lo, a.term <= hi))))
+            return Arr(a.term if safe else wrap(a.term, target.bits), target, a.n, a.valid)
         if src.kind == "float":
             # safe float->int cast: the value must be integral and in range (pyarrow: "Float value ... was truncated")
             if safe:
-                Ctx.side.append((f"safe cast double->int{target.bits} exact", fp_integral_in(a.term, lo, hi)))
-            return Arr(fp_to_int(a.term), target, a.n)
+                Ctx.side.append((f"safe cast double->int{target.bits} exact", z3.Implies(a.valid, fp_integral_in(a.term, lo, hi))))
+            return Arr(fp_to_int(a.term), target, a.n, a.valid)
     if target.kind == "float":
         if src.kind in ("int", "timestamp", "time"):
             f = int_to_fp(a.term)
             if safe:
-                Ctx.side.append(("safe cast int->double exact", fp_to_int(f) == a.term))
-            return Arr(f, target, a.n)
+                Ctx.side.append(("safe cast int->double exact", z3.Implies(a.valid, fp_to_int(f) == a.term)))
+            return Arr(f, target, a.n, a.valid)
         if src.kind == "float":
             return a
     raise Unsupported(f"cast {src} -> {target}")
@@ -170,11 +181,12 @@ def cast(a: Arr, target: TType, safe: bool = True) -> Arr:
 
 def _binop(name: str, a, b) -> Arr:
     a, b = _as_arr(a), _as_arr(b)
+    valid = z3.And(a.valid, b.valid)
     if a.type.kind == "float" or b.type.kind == "float":
         fa = a.term if a.type.kind == "float" else int_to_fp(a.term)
         fb = b.term if b.type.kind == "float" else int_to_fp(b.term)
         t = {"add": z3.fpAdd, "subtract": z3.fpSub, "multiply": z3.fpMul, "divide": z3.fpDiv}[name](RNE, fa, fb)
-        return Arr(t, float64(), max(a.n, b.n))
+        return Arr(t, float64(), max(a.n, b.n), valid)
     if a.type.kind in ("timestamp", "time") or b.type.kind in ("timestamp", "time"):
         if name != "subtract":
             raise Unsupported(f"{name} on temporal values")
@@ -186,12 +198,27 @@ def _binop(name: str, a, b) -> Arr:
     elif name == "multiply":
         t = wrap(a.term * b.term, bits)
     else:
-        Ctx.side.append(("integer divide: divisor non-zero", b.term != 0))
+        Ctx.side.append(("integer divide: divisor non-zero", z3.Implies(valid, b.term != 0)))
         t = z3.If(b.term > 0, trunc_div(a.term, b.term), -trunc_div(a.term, -b.term))
-    return Arr(t, int64(), max(a.n, b.n))
+    return Arr(t, int64(), max(a.n, b.n), valid)
 
 
 class _PC:
+    @staticmethod
+    def is_null(a, **kw):
+        return _as_arr(a).is_null()
+
+    @staticmethod
+    def is_valid(a):
+        return _as_arr(a).is_valid()
+
+    @staticmethod
+    def invert(a):
+        a = _as_arr(a)
+        if a.type.kind != "bool":
+            raise Unsupported("invert of a non-boolean")
+        return Arr(z3.Not(a.term), a.type, a.n, a.valid)
+
     @staticmethod
     def add(a, b):
         return _binop("add", a, b)
@@ -226,7 +253,7 @@ class _PC:
             t = z3.If(a.term == fl, fl, fl + k)
         else:  # round half up, as pyarrow's default RoundTemporalOptions
             t = z3.If((a.term - fl) * 2 >= k, fl + k, fl)
-        return Arr(t, a.type, a.n)
+        return Arr(t, a.type, a.n, a.valid)
 
     @classmethod
     def floor_temporal(cls, a, multiple=1, unit="day", **kw):
@@ -253,7 +280,7 @@ class _PC:
         per_s = UNITS[a.type.unit]
         frac = a.term % per_s  # z3 mod is non-negative for a positive modulus: matches floor semantics
         f = z3.fpDiv(RNE, int_to_fp(frac), z3.FPVal(float(per_s), F64))
-        return Arr(f, float64(), a.n)
+        return Arr(f, float64(), a.n, a.valid)
 
     def __getattr__(self, name):
         raise Unsupported(f"pyarrow.compute.{name}")
@@ -274,8 +301,9 @@ class Field:
 
 
 class Struct:
-    def __init__(self, arrays, fields) -> None:
+    def __init__(self, arrays, fields, valid=None) -> None:
         self.arrays, self.fields = list(arrays), list(fields)
+        self.valid = z3.BoolVal(True) if valid is None else valid
 
     def child(self, name: str) -> Arr:
         for a, f in zip(self.arrays, self.fields):
@@ -312,8 +340,15 @@ class Table:
 
 class _StructArray:
     @staticmethod
-    def from_arrays(arrays, fields=None, names=None):
-        return Struct(arrays, fields or [Field(n) for n in names])
+    def from_arrays(arrays, fields=None, names=None, mask=None, memory_pool=None):
+        valid = None
+        if mask is not None:
+            if not isinstance(mask, Arr) or mask.type.kind != "bool":
+                raise Unsupported("StructArray mask that is not a boolean array")
+            # pyarrow: mask must not contain nulls; True = the struct is NULL there
+            Ctx.side.append(("StructArray mask has no nulls", mask.valid))
+            valid = z3.Not(mask.term)
+        return Struct(arrays, fields or [Field(n) for n in names], valid)
 
 
 class _Types:
@@ -432,5 +467,22 @@ def validate_shim() -> list:
             raised = True
         if holds == raised:
             ok, detail = False, f"safe cast of {fval!r}: pyarrow raised={raised}, shim side condition holds={holds}"
+    # NULL propagation and struct validity
     Ctx.reset()
-    return [("K5 pyarrow kernel semantics (floor/round/ceil_temporal, subsecond, divide, multiply, safe casts): shim == real pyarrow on samples", ok, detail)]
+    rnull = rpa.array([None], type=rpa.timestamp("us"))
+    vflag = z3.Bool("v")
+    snull = Arr(t, timestamp("us"), valid=vflag)
+    null_pairs = [
+        (rpc.floor_temporal(rnull, unit="second")[0].is_valid, pc.floor_temporal(snull, unit="second").valid),
+        (rpc.divide(rnull.cast(rpa.int64()), 1_000_000)[0].is_valid, pc.divide(snull.cast(int64()), 1_000_000).valid),
+        (rpc.multiply(rpc.subtract(rnull.cast(rpa.int64()), rnull.cast(rpa.int64())), 1000).cast(rpa.int32())[0].is_valid, pc.multiply(pc.subtract(snull.cast(int64()), snull.cast(int64())), 1000).cast(int32()).valid),
+        (rpc.is_null(rnull)[0].as_py(), pc.is_null(snull).term),
+        (rpa.StructArray.from_arrays([rnull.cast(rpa.int64())], names=["e"])[0].is_valid, _StructArray.from_arrays([snull.cast(int64())], names=["e"]).valid),
+        (rpa.StructArray.from_arrays([rnull.cast(rpa.int64())], names=["e"], mask=rpc.is_null(rnull))[0].is_valid, _StructArray.from_arrays([snull.cast(int64())], names=["e"], mask=pc.is_null(snull)).valid),
+    ]
+    for i, (want, got) in enumerate(null_pairs):
+        g = z3.is_true(z3.simplify(z3.substitute(got, (vflag, z3.BoolVal(False)))))
+        if bool(want) != g:
+            ok, detail = False, f"NULL propagation case {i}: pyarrow {want!r} vs shim {g!r}"
+    Ctx.reset()
+    return [("K5 pyarrow kernel semantics (floor/round/ceil_temporal, subsecond, divide, multiply, safe casts, NULL propagation, struct validity with/without mask): shim == real pyarrow on samples", ok, detail)]
